@@ -41,6 +41,14 @@ var hugeBoundaries = []int{0x7FFF, 0x8001, 0xD7FF, 0xD800, 0xD801, 0xD802, 0xDBF
 
 func hugeCases(thorough bool) []hugeCase {
 	var out []hugeCase
+	// many separate changes (every tenth record of an export differs): 21, 30, 64 hunks
+	for k, n := range []int{21, 30, 64} {
+		var changed []int
+		for i := 0; i < n; i++ {
+			changed = append(changed, 5+10*i)
+		}
+		out = append(out, hugeCase{Lines: 10*n + 10, Changed: changed, Color: k%2 == 0})
+	}
 	for k, n := range hugeBoundaries {
 		color := k%2 == 1
 		out = append(out, hugeCase{Lines: n, Changed: []int{n - 1}, Color: color})
